@@ -12,6 +12,7 @@ package jobs
 
 import (
 	"context"
+	"encoding/base64"
 	"encoding/json"
 	"fmt"
 	"os"
@@ -86,6 +87,8 @@ func c18Shapes() []c18Shape {
 	// in the direction of their hop)
 	out = append(out, c18Shape{Name: "both-directions", Deps: []c18Dep{
 		{DS: "D", Joins: []c18Join{{"M", "p", false}}}, {DS: "D", Joins: []c18Join{{"M", "p", true}}}}})
+	// the link dataset joined with itself: an entity of L can be reached on the first and on the second level
+	out = append(out, c18Shape{Name: "3hop-self-join-on-link", Deps: []c18Dep{{DS: "D", Joins: []c18Join{{"L", "p", false}, {"L", "q", false}, {"M", "r", false}}}}})
 	out = append(out, c18Shape{Name: "shared-link", Deps: []c18Dep{
 		{DS: "D", Joins: []c18Join{{"L", "p", false}, {"M", "q", false}}},
 		{DS: "E", Joins: []c18Join{{"L", "p", true}, {"M", "q", false}}},
@@ -308,6 +311,9 @@ type c18Params struct {
 	// Fresh: the join predicates have never been used in the hub when the job first catches up (predicate names of
 	// the history's own), and the graph the history starts from holds the entities but not a single link
 	Fresh bool `json:"fresh,omitempty"`
+	// TQ: the dependencies are not declared in the job's JSON but registered by the javascript transform's track_queries
+	// function (chains of hop / iHop from the main dataset outwards)
+	TQ bool `json:"tq,omitempty"`
 }
 
 type c18Hist struct {
@@ -315,6 +321,7 @@ type c18Hist struct {
 	h          *server.VHist
 	shape      c18Shape
 	latestOnly bool
+	tq         bool
 	id         string
 	jb         *job
 	chk        *server.VCheck
@@ -346,11 +353,38 @@ func (c *c18Hist) jobConfig(batch int) []byte {
 	if c.latestOnly {
 		src["LatestOnly"] = true
 	}
+	var transform map[string]interface{}
+	if c.tq {
+		// the same paths, walked from the main dataset outwards the way a transform would query them: the join of the
+		// declared path that leads from X to Y along p becomes a hop from Y back to X (iHop if the declared join is not inverse)
+		delete(src, "Dependencies")
+		code := "function track_queries(start) {\n"
+		for _, d := range c.shape.Deps {
+			chain := "start"
+			for i := len(d.Joins) - 1; i >= 0; i-- {
+				from := d.DS
+				if i > 0 {
+					from = d.Joins[i-1].DS
+				}
+				m := "iHop"
+				if d.Joins[i].Inv {
+					m = "hop"
+				}
+				chain += fmt.Sprintf(".%s(%q, %q)", m, c.h.DsName(from), c.h.KeyURI(d.Joins[i].P))
+			}
+			code += "  " + chain + ";\n"
+		}
+		code += "}\nfunction transform_entities(entities) { return entities; }\n"
+		transform = map[string]interface{}{"Type": "JavascriptTransform", "Code": base64.StdEncoding.EncodeToString([]byte(code))}
+	}
 	cfg := map[string]interface{}{
 		"id": c.id, "title": c.id, "paused": true, "batchSize": batch,
 		"source":   src,
 		"sink":     map[string]interface{}{"Type": "DevNullSink"},
 		"triggers": []interface{}{map[string]interface{}{"triggerType": "cron", "jobType": "incremental", "schedule": "0 0 1 1 *"}},
+	}
+	if transform != nil {
+		cfg["transform"] = transform
 	}
 	b, _ := json.Marshal(cfg)
 	return b
@@ -682,7 +716,7 @@ func c18Replay(task engine.SeqTask) (res engine.SeqResult) {
 	if p.Fresh {
 		h.KeySuffix = "_k" + h.Tag
 	}
-	c := &c18Hist{jw: jw, h: h, shape: p.Shape, latestOnly: p.LatestOnly, first: true, fixLen: map[string]int{}, initW: p.InitW, initAt: p.InitAt, lastRunCommit: -1}
+	c := &c18Hist{jw: jw, h: h, shape: p.Shape, latestOnly: p.LatestOnly, tq: p.TQ, first: true, fixLen: map[string]int{}, initW: p.InitW, initAt: p.InitAt, lastRunCommit: -1}
 	jw.Jobs++
 	c.id = fmt.Sprintf("c18-%s-%d", h.Tag, jw.Jobs)
 	c.chk = &server.VCheck{H: h}
@@ -956,8 +990,8 @@ func init() {
 		}
 	})
 	engine.RegisterCheck("C18", func(r *engine.Run) {
-		r.Rule = "SEQ: for every join shape (2 one-hop, 4 two-hop and 8 three-hop direction patterns, a path through the main dataset in the middle, and two declared dependencies sharing a link dataset; declared in JSON and parsed by the real scheduler) and every batch size in the stated set (and, for shapes with an outgoing first hop of at most two hops, also with the source declared LatestOnly): every history up to the stated depth over {7 entity variants per dataset: property change, link to target 1/2/both/none, delete, second entity; run to fixpoint with batch size 1/2, one run whose sink rejects its 1st/2nd call, one run during which a dependency entity is rewired or changed while the sink handles its first call, a hub restart (the job object is otherwise kept from run to run)} starting from a populated graph on which the job has caught up (also from a graph without a single link whose join predicates nobody in the hub has used before; for shapes in which one dataset holds several join predicates also entity variants with only one of them set; and with one dependency write - property change or rewiring - landing while that first catch-up is between its pages: the entity it requires must be emitted AFTER the write); every history ends with a run-to-fixpoint (the job is run until its token stops changing) whose emitted entities (recording double around the real DevNullSink) must contain every main entity that changed, every main entity connected now through the join path to a dependency or link entity changed since the previous fixpoint, and - for a first outgoing hop - connected as of the previous fixpoint; emitted entities must be versions of main-dataset entities with the latest version among them; tokens never go back nor beyond the end. distinct = distinct canonical end states"
-		r.Assumptions = []string{"entity ids are distinct per dataset (an id living in two datasets of the chain is outside)", "apart from the one dependency write injected between two pages of the first catch-up, no write happens while the job runs: the graph as it stands when the job runs is the model's current graph", "track_queries (JavaScript) registration is not exercised, only declared dependencies"}
+		r.Rule = "SEQ: for every join shape (2 one-hop, 4 two-hop and 8 three-hop direction patterns, a path through the main dataset in the middle, a link dataset joined with itself, and two declared dependencies sharing a link dataset; declared in JSON and parsed by the real scheduler, and - to a smaller depth - registered by a javascript transform's track_queries function) and every batch size in the stated set (and, for shapes with an outgoing first hop of at most two hops, also with the source declared LatestOnly): every history up to the stated depth over {7 entity variants per dataset: property change, link to target 1/2/both/none, delete, second entity; run to fixpoint with batch size 1/2, one run whose sink rejects its 1st/2nd call, one run during which a dependency entity is rewired or changed while the sink handles its first call, a hub restart (the job object is otherwise kept from run to run)} starting from a populated graph on which the job has caught up (also from a graph without a single link whose join predicates nobody in the hub has used before; for shapes in which one dataset holds several join predicates also entity variants with only one of them set; and with one dependency write - property change or rewiring - landing while that first catch-up is between its pages: the entity it requires must be emitted AFTER the write); every history ends with a run-to-fixpoint (the job is run until its token stops changing) whose emitted entities (recording double around the real DevNullSink) must contain every main entity that changed, every main entity connected now through the join path to a dependency or link entity changed since the previous fixpoint, and - for a first outgoing hop - connected as of the previous fixpoint; emitted entities must be versions of main-dataset entities with the latest version among them; tokens never go back nor beyond the end. distinct = distinct canonical end states"
+		r.Assumptions = []string{"entity ids are distinct per dataset (an id living in two datasets of the chain is outside)", "apart from the one dependency write injected between two pages of the first catch-up, no write happens while the job runs: the graph as it stands when the job runs is the model's current graph", "dependencies registered through track_queries (JavaScript) are exercised for every shape to a smaller depth than declared ones"}
 		shapes := c18Shapes()
 		type cfg struct {
 			shapes  []c18Shape
@@ -1041,6 +1075,23 @@ func init() {
 			}
 			params, _ := json.Marshal(c18Params{Shape: s, Batch: 1})
 			engine.RunSeq(r, engine.SeqSpec{Name: fmt.Sprintf("c18-%s-one-path-only", s.Name), WorkerArgs: []string{"worker", "c18"}, Alphabet: alpha, Params: params, Depth: depth, Budget: budget})
+		}
+		// the same paths registered by the transform's track_queries function instead of the job's JSON
+		for si, s := range shapes {
+			depth, budget := 1, 30*time.Second
+			if si == 0 || s.Name == "2hop-oi" || s.Name == "shared-link" || s.Name == "two-paths-one-dep" {
+				depth = 2
+			}
+			if !r.Quick() {
+				depth, budget = depth+1, 10*time.Minute
+			}
+			params, _ := json.Marshal(c18Params{Shape: s, Batch: 1, TQ: true})
+			var alpha []json.RawMessage
+			for _, o := range c18Alphabet(s, []int{1}) {
+				ob, _ := json.Marshal(o)
+				alpha = append(alpha, ob)
+			}
+			engine.RunSeq(r, engine.SeqSpec{Name: fmt.Sprintf("c18-%s-track-queries", s.Name), WorkerArgs: []string{"worker", "c18"}, Alphabet: alpha, Params: params, Depth: depth, Budget: budget})
 		}
 		// a dependency write that lands while the first catch-up (the fullsync) is between two pages
 		for _, s := range shapes {
